@@ -1,21 +1,22 @@
 //@attach src/duration.rs
 // K-dur-api: API-level (refactoring-robust) bounded counterparts of the Verus contracts of unit
 // `duration`: the real functions run as they are (no holes), on small concrete duration models with
-// symbolic frame length / speed / end times.  Bounded, never counted as proved.
-//@harness name=fit_small_model tier=quick label=bounded(2-states,frame_length<=14) props=C08,C09,C01 timeout=900
-//@harness name=create_small_model tier=quick label=bounded(2-states,speed-in-[0.6,8]) props=C08,C01 timeout=900
-//@harness name=align_small_model tier=quick label=bounded(3-labels,1-state,ends<=14) props=C09,C01 timeout=900
-//@harness name=align_trailing_labels tier=quick label=bounded(3-labels,1-state) props=C09,C01 timeout=900
+// symbolic frame length / speed / end times.  Bounded, never counted as proved.  Thorough tier only:
+// the greedy +-1 loop unrolled 7 times over symbolic floats costs CBMC about 12 minutes per harness.
+//@harness name=fit_small_model tier=thorough label=bounded(2-states,frame_length<=10) props=C08,C09,C01 timeout=1800
+//@harness name=create_small_model tier=thorough label=bounded(2-states,speed-in-[0.8,8]) props=C08,C01 timeout=1800
+//@harness name=align_small_model tier=thorough label=bounded(3-labels,1-state,ends<=10) props=C09,C01 timeout=1800
+//@harness name=align_trailing_labels tier=thorough label=bounded(3-labels,1-state) props=C09,C01 timeout=1800
 use super::*;
 
 fn params2() -> Vec<MeanVari> { vec![MeanVari(3.0, 1.0), MeanVari(5.0, 4.0)] }
 
 /// every state >= 1 frame; total = max(round(frame_length).max(1), number of states)
 #[kani::proof]
-#[kani::unwind(18)]
+#[kani::unwind(7)]
 fn fit_small_model() {
     let fl: f64 = kani::any();
-    kani::assume(fl >= 0.0 && fl <= 14.0);
+    kani::assume(fl >= 0.0 && fl <= 10.0);
     let p = params2();
     let r = DurationEstimator::estimate_duration_with_frame_length(&p, fl);
     assert!(r.len() == 2);
@@ -23,16 +24,16 @@ fn fit_small_model() {
     let target = fl.round().max(1.0) as usize;
     assert!(r[0] + r[1] == if target > 2 { target } else { 2 });
     if target <= 2 { assert!(r[0] == 1 && r[1] == 1); }
-    kani::cover!(target == 11);
+    kani::cover!(target == 9);
     kani::cover!(target == 3);
 }
 
 /// C08: speed 1 -> round(mean).max(1) per state; otherwise total = max(round(F1/s), states), every state >= 1
 #[kani::proof]
-#[kani::unwind(18)]
+#[kani::unwind(7)]
 fn create_small_model() {
     let speed: f64 = kani::any();
-    kani::assume(speed >= 0.6 && speed <= 8.0);
+    kani::assume(speed >= 0.8 && speed <= 8.0);
     let e = DurationEstimator::new(params2(), 1);
     let r = e.create(speed);
     assert!(r.len() == 2 && r[0] >= 1 && r[1] >= 1);
@@ -50,12 +51,12 @@ fn create_small_model() {
 /// Frames up to label 0 = round(e0) (at least 1); labels 1-2 share round(e2 - frames so far) frames
 /// (at least one each); every label contributes its state
 #[kani::proof]
-#[kani::unwind(18)]
+#[kani::unwind(7)]
 fn align_small_model() {
     let e0: f64 = kani::any();
     let e2: f64 = kani::any();
     kani::assume(e0 >= 0.0 && e0 <= 6.0);
-    kani::assume(e2 >= 0.0 && e2 <= 14.0);
+    kani::assume(e2 >= 0.0 && e2 <= 10.0);
     let e = DurationEstimator::new(vec![MeanVari(3.0, 1.0), MeanVari(5.0, 4.0), MeanVari(2.0, 1.0)], 1);
     let r = e.create_with_alignment(&[(0.0, e0), (e0, -1.0), (-1.0, e2)]);
     assert!(r.len() == 3);
@@ -69,7 +70,7 @@ fn align_small_model() {
 
 /// C09: trailing labels without an end time fall back to their model durations
 #[kani::proof]
-#[kani::unwind(18)]
+#[kani::unwind(7)]
 fn align_trailing_labels() {
     let e0: f64 = kani::any();
     kani::assume(e0 >= 0.0 && e0 <= 6.0);
